@@ -359,7 +359,7 @@ pub fn run(rep: &mut Report, thorough: bool) {
     crate::util::install_quiet_panic_hook();
     rep.rule = "targets with generated argv/environment (empty strings, bytes 0x01-0xff, one 100 KiB value), 0..200 open descriptors of every kind (files incl. deleted and names with spaces, directory, pipe, socket pair, eventfd, /dev/null), random mappings (all permission combinations, shared file mapping), real and fake linker chains; blamed thread = main or another thread. Oracle: byte equality of the raw streams with the checker's own /proc reads while the target is quiescent; memory-info entries vs. maps lines; handles vs. own readlink+stat; system info vs. own /proc/cpuinfo parse and uname; linker stream vs. the target's own r_debug walk / the fake chain, with the auxv precedence rules. distinct = hash(target description, option); non-trivial = Ok dump".into();
     let mut rng = Rng::new(rep.seed.wrapping_mul(181_818));
-    let ntargets = if thorough { 60 } else { 8 };
+    let ntargets = if thorough { 1000 } else { 8 };
     for ti in 0..ntargets {
         let mut b = Builder::new();
         b.spec.dir = crate::target::new_dir("c18");
@@ -505,7 +505,7 @@ pub fn run(rep: &mut Report, thorough: bool) {
             }
         }
     }
-    single_instant_handles(rep, &mut rng, if thorough { 20 } else { 4 });
+    single_instant_handles(rep, &mut rng, if thorough { 150 } else { 4 });
     rep.require("raw_streams_compared", 50);
     rep.require("memory_info_entries_compared", 100);
     rep.require("linker_streams_compared", 5);
